@@ -29,7 +29,7 @@ class TwoRatioMFDeviceSet(MFDeviceSet):
       constraints += [{
         'type': self.constraint_type,
         'fun': lambda s, i=i, r=self.ratios: s.reshape(shape)[0,i]*r[0] - s.reshape(shape)[1,i]*r[1],
-        'jac': lambda s, i=i, r=self.ratios: zmm(s.reshape(shape), i, axis=1, fn=lambda x: np.array([r[0], -r[1]])).reshape(flat_shape)
+        'jac': lambda s, i=i, r=self.ratios: zmm(s.reshape(shape), i, axis=1, fn=lambda x: np.array([r[0], -1.0*r[1]])).reshape(flat_shape)
       }]
     return constraints
 
